@@ -62,6 +62,10 @@ def run(chk, tier):
     import capfield
     ncf = capfield.run(chk, P, units=None)
     chk.floor("R-CAPFIELD", "recorded capacities paired with an allocation", ncf, 5)
+    chk.rule("R-LEAK", "a local allocation is released, stored or handed over on every path to a return: may-dataflow on owning locals; a call ends ownership only if the callee's effect summary frees the object or stores/returns the pointer (unknown callees conservatively); infeasible paths discarded with correlated conditions")
+    import leak
+    nlk = leak.run(chk, P, E, units=('topology.c', 'distances.c', 'memattrs.c', 'cpukinds.c', 'bitmap.c'))
+    chk.floor("R-LEAK", "allocation sites examined", nlk, 80)
     chk.rule("R-CACHEINV", "validity flags of pointer caches are cleared and cached object pointers reset on the copy")
     dup.cacheinv(chk, P)
     chk.rule("R-TMA", "no plain allocator on the tma duplication path (see C19)")
@@ -70,7 +74,8 @@ def run(chk, tier):
     chk.rule("R-EXTENT", "sibling agreement on the extent of bulk copies of one array field")
     ne = extent.run(chk, P, list(P.units), fields=set(FIELDS))
     chk.floor("R-EXTENT", "bulk operations on distances/memattr arrays", ne, 11)
-    chk.decided += ['a copy records for each heap array the capacity it was actually allocated with',
+    chk.decided += ['no local allocation of the duplication code is dropped on a path to a return',
+                    'a copy records for each heap array the capacity it was actually allocated with',
                     "the duplication functions' failure paths release each allocation once (no use after release)",
                     "nothing is forgotten: every field of topology/object/distances/memattr/cpukind/infos records is set on the copy",
                     "the copy shares no mutable storage: no source pointer stored in the copy except object userdata; copied arrays have the allocation's extent",
